@@ -36,6 +36,7 @@ import JdModel.PatchFmt
 import JdSpec.Rfc6902
 import JdSpec.HunkSem
 import JdProofs.StrictPatch
+import JdProofs.DiffPatchList
 import JdProofs.EqualsList
 import Batteries.Data.String.Lemmas
 
